@@ -1,10 +1,10 @@
-(* MergeOracleProofs.v — C08: the boolean oracle of Merge.v (the property
+(* MergeOracleProofs.v — C08 and C09: the boolean oracles of Merge.v (the property
    text as a judgement of an observed history, used by the correspondence
    check to judge the implementation) accepts what the model does on EVERY
    gated history.  So the oracle is never stricter than the theorems, and a
    run on which the model reproduces the implementation's observation is a
    run the oracle accepts. *)
-From Moc Require Import Base Match MatchProofs Merge MergeProofs.
+From Moc Require Import Base Match MatchProofs Merge MergeProofs MergeAggProofs.
 Open Scope Z_scope.
 
 (** the history as the harness would record it if the implementation were
@@ -263,32 +263,15 @@ Proof.
   intros Hn Ht Ha. rewrite (model_agrees_obs t (init n) Ha). now apply model_satisfies_c08_oracle.
 Qed.
 
+
 (* ================================================================== *)
-(** * C09: the oracle [c09_oracle] accepts what the model does on every
-      gated history that keeps the discipline [c09_disciplined] (no two
-      requests with one id in flight, a child answers a request in flight
-      at most once). *)
+(** * C09: the oracle [c09_oracle] accepts what the model does on EVERY
+      gated history — any number of requests in flight, repeated ids, replies
+      nobody waits for, CLOSE and REQ with the ids of requests in flight.
 
-(** the slot vector the code holds for a request with replies [rs] *)
-Definition slot_vec {A} (n : nat) (rs : list (nat * A)) : list (option A) :=
-  List.map (fun i => option_map snd (find (fun p => Nat.eqb (fst p) i) rs)) (seq 0 n).
-
-Lemma slot_vec_nil {A} n : @slot_vec A n [] = repeat None n.
-Proof.
-  unfold slot_vec. cbn [find option_map]. generalize 0%nat.
-  induction n as [|n IH]; intro a; cbn; [reflexivity | now rewrite IH].
-Qed.
-
-Lemma slot_vec_length {A} n (rs : list (nat * A)) : length (slot_vec n rs) = n.
-Proof. unfold slot_vec. now rewrite map_length, seq_length. Qed.
-
-Lemma slot_vec_upd {A} n i (a : A) rs :
-  (i < n)%nat -> upd_nth i (Some a) (slot_vec n rs) = Some (slot_vec n ((i, a) :: rs)).
-Proof.
-  intro Hi. unfold slot_vec. rewrite upd_nth_map_seq by assumption. f_equal.
-  apply map_ext. intro j. cbn [find fst Nat.add]. rewrite (Nat.eqb_sym i j).
-  destruct (Nat.eqb j i); reflexivity.
-Qed.
+    The oracle keeps, per id, the FIFO of submissions with the replies
+    attributed to each; the code keeps the number of submissions and one FIFO
+    of replies per child.  [ent_of] reads the second off the first. *)
 
 Lemma has_child_find {A} i (rs : list (nat * A)) :
   has_child i rs = negb (isNone (find (fun p => Nat.eqb (fst p) i) rs)).
@@ -297,43 +280,11 @@ Proof.
   destruct (Nat.eqb (fst p) i); cbn; [reflexivity | exact IH].
 Qed.
 
-Lemma slot_vec_holes {A} n (rs : list (nat * A)) : existsb isNone (slot_vec n rs) = negb (complete n rs).
-Proof.
-  unfold slot_vec, complete. generalize 0%nat.
-  induction n as [|n IH]; intro a; cbn [seq List.map existsb forallb]; [reflexivity|].
-  rewrite IH, has_child_find, negb_andb.
-  destruct (find _ rs); reflexivity.
-Qed.
-
-Lemma slot_vec_full {A} n (rs : list (nat * A)) :
-  complete n rs = true -> slot_vec n rs = List.map Some (in_child_order n rs).
-Proof.
-  unfold slot_vec, complete, in_child_order. generalize 0%nat.
-  induction n as [|n IH]; intro a; cbn [seq List.map forallb flat_map]; [reflexivity|].
-  intro H. apply andb_true_iff in H as [H1 H2]. rewrite has_child_find in H1.
-  destruct (find _ rs) as [p|]; [|discriminate]. cbn [option_map app List.map]. f_equal. now apply IH.
-Qed.
-
 Lemma in_child_order_In {A} n (rs : list (nat * A)) a : In a (in_child_order n rs) -> exists i, In (i, a) rs.
 Proof.
   unfold in_child_order. intro H. apply in_flat_map in H as [i [_ H]].
   destruct (find _ rs) as [p|] eqn:Ef; [|destruct H]. destruct H as [<-|[]].
   apply find_some in Ef as [Hin _]. exists (fst p). now destruct p.
-Qed.
-
-(** [w_put] on the vector of an incomplete request is the oracle's [attribute] *)
-Lemma w_put_slot_vec {A} n i (a : A) rs :
-  (i < n)%nat ->
-  w_put (Some (slot_vec n rs)) i a =
-  if complete n ((i, a) :: rs)
-  then (None, Some (List.map Some (in_child_order n ((i, a) :: rs))))
-  else (Some (slot_vec n ((i, a) :: rs)), None).
-Proof.
-  intro Hi. unfold w_put. rewrite (slot_vec_upd n i a rs Hi).
-  destruct (slot_vec n rs) as [|x l] eqn:E.
-  { exfalso. pose proof (slot_vec_length n rs) as L. rewrite E in L. cbn in L. lia. }
-  rewrite slot_vec_holes. destruct (complete n ((i, a) :: rs)) eqn:Ec; cbn [negb]; [|reflexivity].
-  now rewrite (slot_vec_full _ _ Ec).
 Qed.
 
 (** the text's verdict, as the oracle's boolean *)
@@ -372,177 +323,390 @@ Proof.
   - apply existsb_exists. exists r. split; [assumption | apply Z.eqb_refl].
 Qed.
 
-(** the oracle's memory and the discipline's memory against the slot table *)
-Definition rel9 {A} (key : A -> str) (n : nat) (fl : flight A) (pd : pending A)
-  (m : list (str * list (option A))) : Prop :=
-  forall k,
-    match assoc k fl with
-    | None => vlist (assoc k pd) = [] /\ assoc k m = None
-    | Some rs => vlist (assoc k pd) = [rs] /\ assoc k m = Some (slot_vec n rs) /\
-                 complete n rs = false /\ forall p, In p rs -> key (snd p) = k
-    end.
 
-Lemma rel9_init {A} (key : A -> str) n : rel9 key n [] [] [].
-Proof. intro k. cbn. auto. Qed.
+(** the replies of child [i] in the oracle's queue, oldest first *)
+Definition child_replies {A} (i : nat) (q : list (list (nat * A))) : list A :=
+  flat_map (fun rs => match find (fun p => Nat.eqb (fst p) i) rs with Some p => [snd p] | None => [] end) q.
 
-Lemma complete_nil {A} n : (1 <= n)%nat -> @complete A n [] = false.
-Proof. intro H. destruct n; [lia | reflexivity]. Qed.
+Definition ent_of {A} (n : nat) (q : list (list (nat * A))) : entry A :=
+  match q with
+  | [] => None
+  | _ :: _ => Some (Z.of_nat (length q), List.map (fun i => child_replies i q) (seq 0 n))
+  end.
 
-(** a new request (the id is not in flight) *)
-Lemma rel9_request {A} (key : A -> str) n fl pd m m' id :
-  (1 <= n)%nat -> rel9 key n fl pd m -> assoc id fl = None ->
-  assoc id m' = Some (repeat None n) -> (forall k, k <> id -> assoc k m' = assoc k m) ->
-  rel9 key n (m_set id [] fl) (m_set id (vlist (assoc id pd) ++ [[]]) pd) m'.
+(** the submissions child [i] has answered are a prefix of the queue *)
+Fixpoint pre_has {A} (i : nat) (q : list (list (nat * A))) : Prop :=
+  match q with
+  | [] => True
+  | rs :: q' => (has_child i rs = false -> forall rs', In rs' q' -> has_child i rs' = false) /\ pre_has i q'
+  end.
+
+Definition q_ok {A} (n : nat) (q : list (list (nat * A))) : Prop :=
+  (forall rs, In rs q -> complete n rs = false) /\ forall i, pre_has i q.
+
+Lemma find_child_cons {A} i j (a : A) rs :
+  find (fun p => Nat.eqb (fst p) j) ((i, a) :: rs) = if Nat.eqb i j then Some (i, a) else find (fun p => Nat.eqb (fst p) j) rs.
+Proof. reflexivity. Qed.
+
+Lemma has_child_cons {A} i j (a : A) rs : has_child j ((i, a) :: rs) = Nat.eqb i j || has_child j rs.
+Proof. reflexivity. Qed.
+
+Lemma child_replies_app {A} i (q1 q2 : list (list (nat * A))) :
+  child_replies i (q1 ++ q2) = child_replies i q1 ++ child_replies i q2.
+Proof. unfold child_replies. apply flat_map_app. Qed.
+
+Lemma child_replies_cons {A} i (rs : list (nat * A)) q :
+  child_replies i (rs :: q) =
+  match find (fun p => Nat.eqb (fst p) i) rs with Some p => [snd p] | None => [] end ++ child_replies i q.
+Proof. reflexivity. Qed.
+
+Lemma child_replies_none {A} i (q : list (list (nat * A))) :
+  (forall rs, In rs q -> has_child i rs = false) -> child_replies i q = [].
 Proof.
-  intros Hn R Ef Em Hoth k. destruct (str_dec id k) as [<-|N].
-  - rewrite !assoc_m_set_same. pose proof (R id) as Rk. rewrite Ef in Rk. destruct Rk as [Rq _].
-    rewrite Rq. cbn [vlist app]. rewrite Em, slot_vec_nil.
-    split; [reflexivity|]. split; [reflexivity|]. split; [now apply complete_nil | intros p []].
-  - rewrite !assoc_m_set_other by assumption. rewrite (Hoth k) by congruence. apply R.
+  induction q as [|rs q IH]; intro H; [reflexivity|]. rewrite child_replies_cons, IH by (intros r Hr; apply H; now right).
+  specialize (H rs (or_introl eq_refl)). rewrite has_child_find in H. destruct (find _ rs); [discriminate | reflexivity].
 Qed.
 
-(** one reply: what the oracle's [attribute] says, given what [w_put] did *)
-Lemma rel9_reply {A} (key : A -> str) n fl fl' pd m m' i (a : A) :
-  (1 <= n)%nat -> (i < n)%nat -> rel9 key n fl pd m ->
-  disc_reply n i (key a) a fl = Some fl' ->
-  assoc (key a) m' = fst (w_put (assoc (key a) m) i a) ->
-  (forall k, k <> key a -> assoc k m' = assoc k m) ->
-  match attribute n i a (vlist (assoc (key a) pd)) with
-  | None => snd (w_put (assoc (key a) m) i a) = None /\ rel9 key n fl' pd m'
+Lemma child_replies_all_length {A} i (q : list (list (nat * A))) :
+  (forall rs, In rs q -> has_child i rs = true) -> length (child_replies i q) = length q.
+Proof.
+  induction q as [|rs q IH]; intro H; [reflexivity|]. rewrite child_replies_cons, app_length, IH by (intros r Hr; apply H; now right).
+  specialize (H rs (or_introl eq_refl)). rewrite has_child_find in H. destruct (find _ rs); [reflexivity | discriminate].
+Qed.
+
+Lemma pre_has_app_inv {A} i (q1 q2 : list (list (nat * A))) : pre_has i (q1 ++ q2) -> pre_has i q1 /\ pre_has i q2.
+Proof.
+  induction q1 as [|rs q1 IH]; cbn [app pre_has]; [tauto|]. intros [H1 H2]. destruct (IH H2) as [P1 P2].
+  split; [|exact P2]. split; [|exact P1]. intros Hf r Hr. apply (H1 Hf). apply in_or_app. now left.
+Qed.
+
+(** what [attribute] does on a queue in which child [i]'s answers are a prefix *)
+Lemma attr_decomp {A} n i (a : A) (q : list (list (nat * A))) :
+  pre_has i q ->
+  ((forall rs, In rs q -> has_child i rs = true) /\ attribute n i a q = None) \/
+  exists q1 rs q2,
+    q = q1 ++ rs :: q2 /\ (forall r, In r q1 -> has_child i r = true) /\ has_child i rs = false /\
+    (forall r, In r q2 -> has_child i r = false) /\
+    attribute n i a q = if complete n ((i, a) :: rs) then Some (q1 ++ q2, Some ((i, a) :: rs))
+                        else Some (q1 ++ ((i, a) :: rs) :: q2, None).
+Proof.
+  induction q as [|rs q IH]; cbn [pre_has attribute]; intro H.
+  - left. split; [intros r []|reflexivity].
+  - destruct H as [H1 H2]. destruct (has_child i rs) eqn:Eh.
+    + destruct (IH H2) as [[Hall En]|[q1 [r0 [q2 [Eq [Hq1 [Hr0 [Hq2 En]]]]]]]].
+      * left. split; [intros r [<-|Hr]; auto|]. now rewrite En.
+      * right. exists (rs :: q1), r0, q2. rewrite Eq. split; [reflexivity|]. split; [intros r [<-|Hr]; auto|].
+        split; [exact Hr0|]. split; [exact Hq2|]. rewrite <- Eq, En.
+        destruct (complete n ((i, a) :: r0)); reflexivity.
+    + right. exists [], rs, q. split; [reflexivity|]. split; [intros r []|]. split; [exact Eh|].
+      split; [exact (H1 eq_refl)|]. destruct (complete n ((i, a) :: rs)); reflexivity.
+Qed.
+
+(** with every child's answers a prefix, a child's queue is empty iff the
+    head submission lacks the child *)
+Lemma is_nil_child_replies {A} j (rs : list (nat * A)) q :
+  pre_has j (rs :: q) -> is_nil (child_replies j (rs :: q)) = negb (has_child j rs).
+Proof.
+  intros [H1 _]. rewrite child_replies_cons, has_child_find.
+  destruct (find _ rs) as [p|] eqn:Ef; [reflexivity|]. cbn [app isNone negb].
+  rewrite child_replies_none; [reflexivity|]. apply H1. rewrite has_child_find, Ef. reflexivity.
+Qed.
+
+Lemma existsb_nil_queues {A} n (rs : list (nat * A)) q :
+  (forall j, pre_has j (rs :: q)) ->
+  existsb is_nil (List.map (fun j => child_replies j (rs :: q)) (seq 0 n)) = negb (complete n rs).
+Proof.
+  intro H. unfold complete. generalize 0%nat. induction n as [|n IH]; intro a0; cbn [seq List.map existsb forallb]; [reflexivity|].
+  rewrite IH, (is_nil_child_replies _ _ _ (H a0)), negb_andb. reflexivity.
+Qed.
+
+Lemma heads_of_complete {A} n (rs : list (nat * A)) q :
+  complete n rs = true ->
+  List.map hd_opt (List.map (fun j => child_replies j (rs :: q)) (seq 0 n)) = List.map Some (in_child_order n rs) /\
+  List.map (@tl A) (List.map (fun j => child_replies j (rs :: q)) (seq 0 n)) = List.map (fun j => child_replies j q) (seq 0 n).
+Proof.
+  unfold complete, in_child_order. generalize 0%nat.
+  induction n as [|n IH]; intro a0; cbn [seq List.map forallb flat_map]; [split; reflexivity|].
+  intro H. apply andb_true_iff in H as [H1 H2]. destruct (IH _ H2) as [E1 E2].
+  rewrite child_replies_cons. rewrite has_child_find in H1.
+  destruct (find _ rs) as [p|]; [|discriminate]. cbn [app hd_opt tl List.map]. now rewrite E1, E2.
+Qed.
+
+Lemma q_ok_nil {A} n : @q_ok A n [].
+Proof. split; [intros rs [] | intro i; exact I]. Qed.
+
+Lemma pre_has_snoc_nil {A} i (q : list (list (nat * A))) : pre_has i q -> pre_has i (q ++ [[]]).
+Proof.
+  induction q as [|rs q IH]; cbn [app pre_has]; [intros _; split; [intros _ r [] | exact I]|].
+  intros [H1 H2]. split; [|now apply IH]. intros Hf r Hr. apply in_app_or in Hr as [Hr|[<-|[]]]; [now apply H1 | reflexivity].
+Qed.
+
+Lemma q_ok_request {A} n (q : list (list (nat * A))) : (1 <= n)%nat -> q_ok n q -> q_ok n (q ++ [[]]).
+Proof.
+  intros Hn [H1 H2]. split.
+  - intros rs Hr. apply in_app_or in Hr as [Hr|[<-|[]]]; [now apply H1|]. destruct n; [lia | reflexivity].
+  - intro i. now apply pre_has_snoc_nil.
+Qed.
+
+Lemma ent_of_request {A} n (q : list (list (nat * A))) : ent_of n (q ++ [[]]) = w_req n (ent_of n q).
+Proof.
+  assert (E : forall j, child_replies j (q ++ [[]]) = child_replies j q).
+  { intro j. rewrite child_replies_app. cbn. apply app_nil_r. }
+  destruct q as [|rs q]; cbn [app ent_of w_req].
+  - f_equal. f_equal. apply map_seq_const. reflexivity.
+  - rewrite app_comm_cons. f_equal. f_equal.
+    + rewrite app_length. cbn [length]. lia.
+    + apply map_ext. intro j. apply (E j).
+Qed.
+
+Lemma pre_has_sub {A} i (q1 : list (list (nat * A))) rs q2 : pre_has i (q1 ++ rs :: q2) -> pre_has i (q1 ++ q2).
+Proof.
+  induction q1 as [|r q1 IH]; cbn [app pre_has]; [tauto|]. intros [H1 H2]. split; [|now apply IH].
+  intros Hf r' Hr'. apply (H1 Hf). apply in_app_or in Hr' as [Hr'|Hr']; apply in_or_app; [now left | right; now right].
+Qed.
+
+Lemma pre_has_replace {A} i (q1 : list (list (nat * A))) rs rs' q2 :
+  has_child i rs' = has_child i rs -> pre_has i (q1 ++ rs :: q2) -> pre_has i (q1 ++ rs' :: q2).
+Proof.
+  intro E. induction q1 as [|r q1 IH]; cbn [app pre_has].
+  - rewrite E. tauto.
+  - intros [H1 H2]. split; [|now apply IH]. intros Hf r' Hr'.
+    apply in_app_or in Hr' as [Hr'|[<-|Hr']].
+    + apply (H1 Hf). apply in_or_app. now left.
+    + rewrite E. apply (H1 Hf). apply in_or_app. right. now left.
+    + apply (H1 Hf). apply in_or_app. right. now right.
+Qed.
+
+Lemma pre_has_none {A} i (q : list (list (nat * A))) : (forall r, In r q -> has_child i r = false) -> pre_has i q.
+Proof.
+  induction q as [|r q IH]; cbn; intro H; [exact I|]. split; [intros _ r' Hr'; apply H; now right|].
+  apply IH. intros r' Hr'. apply H. now right.
+Qed.
+
+Lemma pre_has_fill {A} i (q1 : list (list (nat * A))) rs' q2 :
+  (forall r, In r q1 -> has_child i r = true) -> has_child i rs' = true ->
+  (forall r, In r q2 -> has_child i r = false) -> pre_has i (q1 ++ rs' :: q2).
+Proof.
+  intros H1 Hr H2. induction q1 as [|r q1 IH]; cbn [app pre_has].
+  - split; [rewrite Hr; discriminate | now apply pre_has_none].
+  - split; [rewrite (H1 r (or_introl eq_refl)); discriminate|]. apply IH. intros r' Hr'. apply H1. now right.
+Qed.
+
+Lemma ent_of_cons {A} n (q : list (list (nat * A))) :
+  q <> [] -> ent_of n q = Some (Z.of_nat (length q), List.map (fun j => child_replies j q) (seq 0 n)).
+Proof. destruct q; [congruence | reflexivity]. Qed.
+
+Lemma has_child_find_none {A} i (rs : list (nat * A)) :
+  has_child i rs = false -> find (fun p => Nat.eqb (fst p) i) rs = None.
+Proof. rewrite has_child_find. destruct (find _ rs); [discriminate | reflexivity]. Qed.
+
+(** the code's reply step on [ent_of q] is the oracle's [attribute] on [q] *)
+Lemma attr_w_put {A} n i (a : A) (q : list (list (nat * A))) :
+  (1 <= n)%nat -> (i < n)%nat -> q_ok n q ->
+  match attribute n i a q with
+  | None => w_put (ent_of n q) i a = (ent_of n q, None)
+  | Some (q', None) => w_put (ent_of n q) i a = (ent_of n q', None) /\ q_ok n q'
   | Some (q', Some hit) =>
-      snd (w_put (assoc (key a) m) i a) = Some (List.map Some (in_child_order n hit)) /\
-      (forall b, In b (in_child_order n hit) -> key b = key a) /\
-      rel9 key n fl' (m_set (key a) q' pd) m'
-  | Some (q', None) => snd (w_put (assoc (key a) m) i a) = None /\ rel9 key n fl' (m_set (key a) q' pd) m'
+      w_put (ent_of n q) i a = (ent_of n q', Some (List.map Some (in_child_order n hit))) /\ q_ok n q'
   end.
 Proof.
-  intros Hn Hi R D Em Hoth. unfold disc_reply in D. pose proof (R (key a)) as Rk.
-  destruct (assoc (key a) fl) as [rs|] eqn:Ef.
-  - destruct Rk as [Rq [Rm [Rc Rkey]]]. rewrite Rq, Rm in *. cbn [attribute].
-    destruct (has_child i rs) eqn:Eh; [discriminate|].
-    rewrite (w_put_slot_vec n i a rs Hi) in *.
-    assert (Hkey' : forall p, In p ((i, a) :: rs) -> key (snd p) = key a).
-    { intros p [<-|Hp]; [reflexivity | now apply Rkey]. }
-    destruct (complete n ((i, a) :: rs)) eqn:Ec; cbn [fst snd] in *; inversion D; subst fl'; clear D.
-    + split; [reflexivity|]. split.
-      * intros b Hb. apply in_child_order_In in Hb as [j Hj]. apply (Hkey' (j, b) Hj).
-      * intro k. destruct (str_dec (key a) k) as [<-|N].
-        -- rewrite assoc_m_del_same, assoc_m_set_same, Em. cbn. auto.
-        -- rewrite assoc_m_del_other, assoc_m_set_other by assumption. rewrite (Hoth k) by congruence. apply R.
-    + split; [reflexivity|]. intro k. destruct (str_dec (key a) k) as [<-|N].
-      * rewrite !assoc_m_set_same, Em. cbn [vlist]. auto.
-      * rewrite !assoc_m_set_other by assumption. rewrite (Hoth k) by congruence. apply R.
-  - destruct Rk as [Rq Rm]. rewrite Rq, Rm in *. cbn [attribute w_put fst snd] in *.
-    inversion D; subst fl'. split; [reflexivity|].
-    intro k. destruct (str_dec (key a) k) as [<-|N].
-    + rewrite Ef, Em. auto.
-    + rewrite (Hoth k) by congruence. apply R.
+  intros Hn Hi [Hinc Hpre].
+  destruct (attr_decomp n i a q (Hpre i)) as [[Hall En]|[q1 [rs [q2 [Eq [Hq1 [Hrs [Hq2 En]]]]]]]]; rewrite En.
+  - (* the child has answered every pending submission: the reply is dropped *)
+    destruct q as [|r0 q0]; [reflexivity|]. rewrite ent_of_cons by discriminate. cbn [w_put].
+    rewrite (nth_error_map_seq _ n 0 i Hi). cbn [Nat.add].
+    replace (zlen (child_replies i (r0 :: q0)) >=? Z.of_nat (length (r0 :: q0))) with true; [reflexivity|].
+    symmetry. rewrite zlen_nat, (child_replies_all_length i _ Hall), Z.geb_leb. apply Z.leb_refl.
+  - set (rs' := (i, a) :: rs) in *. set (q' := q1 ++ rs' :: q2).
+    assert (Hne : q <> []) by (rewrite Eq; destruct q1; discriminate).
+    assert (Hne' : q' <> []) by (unfold q'; destruct q1; discriminate).
+    assert (Hlen' : length q' = length q) by (unfold q'; rewrite Eq, !app_length; reflexivity).
+    assert (Qi : child_replies i q = child_replies i q1).
+    { rewrite Eq, child_replies_app, child_replies_cons, (has_child_find_none _ _ Hrs), (child_replies_none i q2 Hq2).
+      cbn [app]. apply app_nil_r. }
+    assert (Qi' : child_replies i q' = child_replies i q ++ [a]).
+    { unfold q', rs'. rewrite Qi, child_replies_app, child_replies_cons, find_child_cons, Nat.eqb_refl, (child_replies_none i q2 Hq2).
+      reflexivity. }
+    assert (Qj' : forall j, j <> i -> child_replies j q' = child_replies j q).
+    { intros j N. unfold q', rs'. rewrite Eq, !child_replies_app, !child_replies_cons, find_child_cons.
+      replace (Nat.eqb i j) with false by (symmetry; apply Nat.eqb_neq; congruence). reflexivity. }
+    assert (Hhas' : forall j, j <> i -> has_child j rs' = has_child j rs).
+    { intros j N. unfold rs'. rewrite has_child_cons.
+      replace (Nat.eqb i j) with false by (symmetry; apply Nat.eqb_neq; congruence). reflexivity. }
+    assert (Hpre' : forall j, pre_has j q').
+    { intro j. destruct (Nat.eq_dec j i) as [->|N].
+      - apply pre_has_fill; auto. unfold rs'. rewrite has_child_cons, Nat.eqb_refl. reflexivity.
+      - unfold q'. apply (pre_has_replace j q1 rs rs' q2 (Hhas' j N)). rewrite <- Eq. apply Hpre. }
+    rewrite (ent_of_cons n q Hne). cbn [w_put]. rewrite (nth_error_map_seq _ n 0 i Hi). cbn [Nat.add].
+    replace (zlen (child_replies i q) >=? Z.of_nat (length q)) with false.
+    2:{ symmetry. rewrite zlen_nat, Qi, (child_replies_all_length i q1 Hq1), Z.geb_leb. apply Z.leb_gt.
+        rewrite Eq, app_length. cbn [length]. lia. }
+    rewrite (upd_nth_map_seq _ _ n 0 i Hi). cbn [Nat.add].
+    replace (List.map (fun j => if Nat.eqb j i then child_replies i q ++ [a] else child_replies j q) (seq 0 n))
+      with (List.map (fun j => child_replies j q') (seq 0 n)).
+    2:{ apply map_ext. intro j. destruct (Nat.eqb j i) eqn:Eji.
+        - apply Nat.eqb_eq in Eji. subst j. exact Qi'.
+        - apply Nat.eqb_neq in Eji. now apply Qj'. }
+    destruct q1 as [|r1 q1'].
+    + (* the oldest submission gets the reply *)
+      cbn [app] in *. unfold q' in *. cbn [app] in *.
+      rewrite (existsb_nil_queues n rs' q2 Hpre').
+      destruct (complete n rs') eqn:Ec; cbn [negb].
+      * destruct (heads_of_complete n rs' q2 Ec) as [E1 E2]. rewrite E1, E2. split.
+        -- f_equal. rewrite Eq. cbn [length]. destruct q2 as [|r2 q2']; cbn [ent_of length].
+           ++ reflexivity.
+           ++ replace (Z.of_nat (S (S (length q2'))) - 1 <=? 0) with false by (symmetry; apply Z.leb_gt; lia).
+              do 2 f_equal. lia.
+        -- split.
+           ++ intros r Hr. apply Hinc. rewrite Eq. now right.
+           ++ intro j. specialize (Hpre j). rewrite Eq in Hpre. apply Hpre.
+      * split.
+        -- f_equal. cbn [ent_of]. do 2 f_equal. rewrite Eq. reflexivity.
+        -- split; [|exact Hpre']. intros r [<-|Hr]; [exact Ec|]. apply Hinc. rewrite Eq. now right.
+    + (* an older submission is still incomplete *)
+      assert (Hr1 : complete n r1 = false) by (apply Hinc; rewrite Eq; now left).
+      assert (Ec : complete n rs' = false).
+      { destruct (complete n rs') eqn:Ec; [|reflexivity]. exfalso.
+        assert (complete n r1 = true); [|congruence].
+        unfold complete in *. rewrite forallb_forall in *. intros j Hj.
+        destruct (Nat.eq_dec j i) as [->|N]; [apply Hq1; now left|].
+        destruct (has_child j r1) eqn:E1; [reflexivity|]. exfalso.
+        specialize (Hpre j). rewrite Eq in Hpre. cbn [app pre_has] in Hpre. destruct Hpre as [P _].
+        specialize (P E1 rs ltac:(apply in_or_app; right; now left)).
+        rewrite <- (Hhas' j N), (Ec j Hj) in P. discriminate. }
+      rewrite Ec. unfold q' in *. cbn [app] in *.
+      rewrite (existsb_nil_queues n r1 (q1' ++ rs' :: q2) Hpre'), Hr1. cbn [negb]. split.
+      * f_equal. cbn [ent_of]. do 2 f_equal. rewrite Eq. cbn [app length]. rewrite !app_length. reflexivity.
+      * split; [|exact Hpre']. intros r [<-|Hr]; [exact Hr1|].
+        apply in_app_or in Hr as [Hr|[<-|Hr]]; [| exact Ec |]; apply Hinc; rewrite Eq; right; apply in_or_app;
+          [now left | right; now right].
 Qed.
 
-Lemma rel9_same {A} (key : A -> str) n fl pd m m' :
-  rel9 key n fl pd m -> m' = m -> rel9 key n fl pd m'.
-Proof. now intros R ->. Qed.
+(** the oracle's memory against the code's table *)
+Definition rel9 {A} (n : nat) (ent : str -> entry A) (pd : pending A) : Prop :=
+  forall k, ent k = ent_of n (vlist (assoc k pd)) /\ q_ok n (vlist (assoc k pd)).
 
-Lemma c09_step n s x fe fc pe pc t' :
-  (1 <= n)%nat -> state_ok n s -> input_ok n x ->
-  rel9 ok_id n fe pe (os_s (st_os s)) -> rel9 c_sub n fc pc (cs_counts (st_cs s)) ->
-  c09_disc n (x :: t') fe fc = true ->
-  exists fe' fc' pe' pc',
-    c09_disc n t' fe' fc' = true /\
-    (forall o, c09_scan n ((x, out_list (snd (merge_step s x))) :: o) pe pc = c09_scan n o pe' pc') /\
-    rel9 ok_id n fe' pe' (os_s (st_os (fst (merge_step s x)))) /\
-    rel9 c_sub n fc' pc' (cs_counts (st_cs (fst (merge_step s x)))).
+Lemma rel9_upd {A} n (ent ent' : str -> entry A) pd k q' :
+  rel9 n ent pd -> ent' k = ent_of n q' -> q_ok n q' -> (forall k', k' <> k -> ent' k' = ent k') ->
+  rel9 n ent' (m_set k q' pd).
 Proof.
-  intros Hn Hs Hx Re Rc D. pose proof Hs as [Hd [Hr [Ho Hc]]].
+  intros R E Q F k'. destruct (str_dec k k') as [<-|N].
+  - rewrite assoc_m_set_same. cbn [vlist]. auto.
+  - rewrite assoc_m_set_other by assumption. rewrite (F k') by congruence. apply R.
+Qed.
+
+Lemma rel9_keep {A} n (ent ent' : str -> entry A) pd :
+  rel9 n ent pd -> (forall k, ent' k = ent k) -> rel9 n ent' pd.
+Proof. intros R F k. rewrite F. apply R. Qed.
+
+Lemma rel9_init {A} n (ent : str -> entry A) : (forall k, ent k = None) -> rel9 n ent [].
+Proof. intros H k. cbn. split; [apply H | apply q_ok_nil]. Qed.
+
+Lemma c09_step n s x pe pc :
+  (1 <= n)%nat -> state_ok n s -> input_ok n x ->
+  rel9 n (os_ent (st_os s)) pe -> rel9 n (cs_ent (st_cs s)) pc ->
+  exists pe' pc',
+    (forall o, c09_scan n ((x, out_list (snd (merge_step s x))) :: o) pe pc = c09_scan n o pe' pc') /\
+    rel9 n (os_ent (st_os (fst (merge_step s x)))) pe' /\
+    rel9 n (cs_ent (st_cs (fst (merge_step s x)))) pc'.
+Proof.
+  intros Hn Hs Hx Re Rc. pose proof Hs as [Hd [Hr [Ho Hc]]].
   unfold merge_step. rewrite Hd.
-  destruct x as [sub fs|sub|id|sub|i m]; cbn [fst snd out_list c09_disc] in *.
-  - exists fe, fc, pe, pc. repeat split; auto.
-  - exists fe, fc, pe, pc. repeat split; auto.
+  destruct x as [sub fs|sub|id|sub|i m]; cbn [fst snd out_list].
+  - exists pe, pc. split; [intro o; reflexivity | split; [exact Re | exact Rc]].
+  - exists pe, pc. split; [intro o; reflexivity | split; [exact Re | exact Rc]].
   - (* EVENT *)
-    destruct (assoc id fe) as [rs|] eqn:Ef; [discriminate|].
-    exists (m_set id [] fe), fc, (m_set id (vlist (assoc id pe) ++ [[]]) pe), pc.
-    split; [exact D|]. split; [intro o; reflexivity|]. split; [|exact Rc].
-    cbn [with_os st_os]. pose proof (Re id) as Rk. rewrite Ef in Rk. destruct Rk as [_ Rm].
-    unfold os_try_set. rewrite Rm. cbn [vlist zlen length Z.of_nat h_ok_has_slot Z.gtb Z.compare].
-    cbn [os_s]. destruct Ho as [Hsz _]. rewrite Hsz.
-    apply (rel9_request ok_id n fe pe (os_s (st_os s))); auto.
-    + apply assoc_m_set_same.
-    + intros k N. apply assoc_m_set_other. congruence.
+    destruct (os_try_set_spec n (st_os s) id Ho) as [_ [E1 E2]]. cbn [with_os st_os st_cs].
+    exists (m_set id (vlist (assoc id pe) ++ [[]]) pe), pc. split; [intro o; reflexivity|]. split; [|exact Rc].
+    destruct (Re id) as [Rk Rq]. apply (rel9_upd n (os_ent (st_os s))); auto.
+    + rewrite E1, Rk. symmetry. apply ent_of_request.
+    + now apply q_ok_request.
   - (* COUNT *)
-    destruct (assoc sub fc) as [rs|] eqn:Ef; [discriminate|].
-    exists fe, (m_set sub [] fc), pe, (m_set sub (vlist (assoc sub pc) ++ [[]]) pc).
-    split; [exact D|]. split; [intro o; reflexivity|]. split; [exact Re|].
-    cbn [with_cs st_cs cs_set_sub cs_counts]. destruct Hc as [Hsz _]. rewrite Hsz.
-    apply (rel9_request c_sub n fc pc (cs_counts (st_cs s))); auto.
-    + apply assoc_m_set_same.
-    + intros k N. apply assoc_m_set_other. congruence.
+    destruct (cs_set_sub_spec n (st_cs s) sub Hc) as [_ [E1 E2]]. cbn [with_cs st_os st_cs].
+    exists pe, (m_set sub (vlist (assoc sub pc) ++ [[]]) pc). split; [intro o; reflexivity|]. split; [exact Re|].
+    destruct (Rc sub) as [Rk Rq]. apply (rel9_upd n (cs_ent (st_cs s))); auto.
+    + rewrite E1, Rk. symmetry. apply ent_of_request.
+    + now apply q_ok_request.
   - destruct m as [sub|sub e|m|c|t|sub p t]; cbn [input_ok] in Hx.
     + destruct (send_eose_spec n s i sub Hr Hx) as [r' [E _]]. rewrite E. cbn [fst snd with_rs st_os st_cs].
-      exists fe, fc, pe, pc. repeat split; auto. intro o. cbn [c09_scan].
+      exists pe, pc. split; [|split; [exact Re | exact Rc]]. intro o. cbn [c09_scan].
       destruct (snd (w_eose _ i)); reflexivity.
     + destruct Hx as [Hi Hne].
       destruct (send_event_spec n s i sub e Hr Hi Hne) as [r' [E _]]. rewrite E. cbn [fst snd with_rs st_os st_cs].
-      exists fe, fc, pe, pc. repeat split; auto. intro o. cbn [c09_scan].
+      exists pe, pc. split; [|split; [exact Re | exact Rc]]. intro o. cbn [c09_scan].
       destruct (snd (w_event _ i e)); reflexivity.
     + (* OK *)
-      destruct (disc_reply n i (ok_id m) m fe) as [fe'|] eqn:Ed; [|discriminate].
       destruct (send_ok_spec n s i m Ho Hx) as [o' [E [_ [Hoth [Hsame Hfull]]]]]. cbv zeta in *.
-      rewrite E. cbn [fst snd with_os st_os st_cs].
-      pose proof (rel9_reply ok_id n fe fe' pe (os_s (st_os s)) (os_s o') i m Hn Hx Re Ed Hsame Hoth) as P.
-      cbn [c09_scan].
+      rewrite E. cbn [fst snd with_os st_os st_cs]. cbn [c09_scan].
+      destruct (Re (ok_id m)) as [Rk Rq].
+      pose proof (attr_w_put n i m (vlist (assoc (ok_id m) pe)) Hn Hx Rq) as P. rewrite <- Rk in P.
       destruct (attribute n i m (vlist (assoc (ok_id m) pe))) as [[q' [hit|]]|].
-      * destruct P as [Ew [Hk R']]. rewrite Ew in *. destruct (Hfull _ eq_refl) as [r Er].
+      * destruct P as [Ew Q']. rewrite Ew in *. cbn [fst snd] in *. destruct (Hfull _ eq_refl) as [r Er].
         cbn [out_ok]. rewrite Er. cbn [option_map out_list].
-        exists fe', fc, (m_set (ok_id m) q' pe), pc. split; [exact D|]. split; [|split; assumption].
-        intro o. rewrite (ok_verdict_spec_b _ _ _ (ok_merge_verdict _ _ _ Er Hk)). reflexivity.
-      * destruct P as [Ew R']. rewrite Ew. cbn [out_ok out_list].
-        exists fe', fc, (m_set (ok_id m) q' pe), pc. repeat split; auto.
-      * destruct P as [Ew R']. rewrite Ew. cbn [out_ok out_list].
-        exists fe', fc, pe, pc. repeat split; auto.
+        exists (m_set (ok_id m) q' pe), pc. split; [|split; [|exact Rc]].
+        -- intro o.
+           assert (Hk : forall a, In a (in_child_order n hit) -> ok_id a = ok_id m).
+           { intros a Ha. apply (w_put_full_In ok_id n (os_ent (st_os s) (ok_id m)) i m (List.map Some (in_child_order n hit)) a (proj1 (proj2 Ho (ok_id m)))).
+             - rewrite Ew. reflexivity.
+             - now apply in_map. }
+           rewrite (ok_verdict_spec_b _ _ _ (ok_merge_verdict _ _ _ Er Hk)). reflexivity.
+        -- apply (rel9_upd n (os_ent (st_os s))); auto.
+      * destruct P as [Ew Q']. rewrite Ew in *. cbn [fst snd out_ok out_list] in *.
+        exists (m_set (ok_id m) q' pe), pc. split; [intro o; reflexivity|]. split; [|exact Rc].
+        apply (rel9_upd n (os_ent (st_os s))); auto.
+      * rewrite P in *. cbn [fst snd out_ok out_list] in *.
+        exists pe, pc. split; [intro o; reflexivity|]. split; [|exact Rc].
+        apply (rel9_keep n (os_ent (st_os s))); [exact Re|]. intro k.
+        destruct (str_dec k (ok_id m)) as [->|N]; [exact Hsame | now apply Hoth].
     + (* COUNT reply *)
-      destruct (disc_reply n i (c_sub c) c fc) as [fc'|] eqn:Ed; [|discriminate].
       destruct (send_count_spec n s i c Hc Hx) as [c' [E [_ [Hoth [Hsame Hfull]]]]]. cbv zeta in *.
-      rewrite E. cbn [fst snd with_cs st_os st_cs].
-      pose proof (rel9_reply c_sub n fc fc' pc (cs_counts (st_cs s)) (cs_counts c') i c Hn Hx Rc Ed Hsame Hoth) as P.
-      cbn [c09_scan].
+      rewrite E. cbn [fst snd with_cs st_os st_cs]. cbn [c09_scan].
+      destruct (Rc (c_sub c)) as [Rk Rq].
+      pose proof (attr_w_put n i c (vlist (assoc (c_sub c) pc)) Hn Hx Rq) as P. rewrite <- Rk in P.
       destruct (attribute n i c (vlist (assoc (c_sub c) pc))) as [[q' [hit|]]|].
-      * destruct P as [Ew [Hk R']]. rewrite Ew in *. destruct (Hfull _ eq_refl) as [r Er].
+      * destruct P as [Ew Q']. rewrite Ew in *. cbn [fst snd] in *. destruct (Hfull _ eq_refl) as [r Er].
         cbn [out_cnt]. rewrite Er. cbn [option_map out_list].
-        exists fe, fc', pe, (m_set (c_sub c) q' pc). split; [exact D|]. split; [|split; assumption].
-        intro o. rewrite (count_max_spec_b _ _ _ (cnt_merge_max _ _ _ Er Hk)). reflexivity.
-      * destruct P as [Ew R']. rewrite Ew. cbn [out_cnt out_list].
-        exists fe, fc', pe, (m_set (c_sub c) q' pc). repeat split; auto.
-      * destruct P as [Ew R']. rewrite Ew. cbn [out_cnt out_list].
-        exists fe, fc', pe, pc. repeat split; auto.
-    + exists fe, fc, pe, pc. repeat split; auto.
-    + exists fe, fc, pe, pc. repeat split; auto.
+        exists pe, (m_set (c_sub c) q' pc). split; [|split; [exact Re|]].
+        -- intro o.
+           assert (Hk : forall a, In a (in_child_order n hit) -> c_sub a = c_sub c).
+           { intros a Ha. apply (w_put_full_In c_sub n (cs_ent (st_cs s) (c_sub c)) i c (List.map Some (in_child_order n hit)) a (proj1 (proj2 Hc (c_sub c)))).
+             - rewrite Ew. reflexivity.
+             - now apply in_map. }
+           rewrite (count_max_spec_b _ _ _ (cnt_merge_max _ _ _ Er Hk)). reflexivity.
+        -- apply (rel9_upd n (cs_ent (st_cs s))); auto.
+      * destruct P as [Ew Q']. rewrite Ew in *. cbn [fst snd out_cnt out_list] in *.
+        exists pe, (m_set (c_sub c) q' pc). split; [intro o; reflexivity|]. split; [exact Re|].
+        apply (rel9_upd n (cs_ent (st_cs s))); auto.
+      * rewrite P in *. cbn [fst snd out_cnt out_list] in *.
+        exists pe, pc. split; [intro o; reflexivity|]. split; [exact Re|].
+        apply (rel9_keep n (cs_ent (st_cs s))); [exact Rc|]. intro k.
+        destruct (str_dec k (c_sub c)) as [->|N]; [exact Hsame | now apply Hoth].
+    + exists pe, pc. split; [intro o; reflexivity | split; [exact Re | exact Rc]].
+    + exists pe, pc. split; [intro o; reflexivity | split; [exact Re | exact Rc]].
 Qed.
 
-Lemma c09_run n t : forall s fe fc pe pc,
+Lemma c09_run n t : forall s pe pc,
   (1 <= n)%nat -> state_ok n s -> trace_ok n t ->
-  rel9 ok_id n fe pe (os_s (st_os s)) -> rel9 c_sub n fc pc (cs_counts (st_cs s)) ->
-  c09_disc n t fe fc = true ->
+  rel9 n (os_ent (st_os s)) pe -> rel9 n (cs_ent (st_cs s)) pc ->
   c09_scan n (obs_of s t) pe pc = true.
 Proof.
-  induction t as [|x t IH]; intros s fe fc pe pc Hn Hs Ht Re Rc D; [reflexivity|].
+  induction t as [|x t IH]; intros s pe pc Hn Hs Ht Re Rc; [reflexivity|].
   inversion Ht as [|? ? Hx Ht']; subst. rewrite obs_of_cons.
-  destruct (c09_step n s x fe fc pe pc t Hn Hs Hx Re Rc D) as [fe' [fc' [pe' [pc' [D' [Esc [Re' Rc']]]]]]].
-  rewrite Esc. apply (IH _ fe' fc'); auto. now apply step_ok.
+  destruct (c09_step n s x pe pc Hn Hs Hx Re Rc) as [pe' [pc' [Esc [Re' Rc']]]].
+  rewrite Esc. apply IH; auto. now apply step_ok.
 Qed.
 
-(** the C09 oracle accepts the model's behaviour on every gated history that
-    keeps the discipline *)
+(** the C09 oracle accepts the model's behaviour on every gated history *)
 Theorem model_satisfies_c09_oracle n t :
-  (1 <= n)%nat -> trace_ok n t -> c09_disciplined n t -> c09_oracle n (obs_of (init n) t) = true.
+  (1 <= n)%nat -> trace_ok n t -> c09_oracle n (obs_of (init n) t) = true.
 Proof.
-  intros Hn Ht D. apply (c09_run n t (init n) [] [] [] []); auto using init_ok.
-  - apply rel9_init.
-  - apply rel9_init.
+  intros Hn Ht. apply (c09_run n t (init n) [] []); auto using init_ok.
+  - apply rel9_init. reflexivity.
+  - apply rel9_init. reflexivity.
 Qed.
 
 Theorem agreement_implies_c09_oracle n t :
-  (1 <= n)%nat -> trace_ok n (List.map fst t) -> c09_disciplined n (List.map fst t) ->
-  model_agrees (init n) t = true -> c09_oracle n t = true.
+  (1 <= n)%nat -> trace_ok n (List.map fst t) -> model_agrees (init n) t = true -> c09_oracle n t = true.
 Proof.
-  intros Hn Ht D Ha. rewrite (model_agrees_obs t (init n) Ha). now apply model_satisfies_c09_oracle.
+  intros Hn Ht Ha. rewrite (model_agrees_obs t (init n) Ha). now apply model_satisfies_c09_oracle.
 Qed.
